@@ -31,6 +31,14 @@ func (d *PlannerDrop) Process(ctx *shared.PlannerContext) (sql.ISelect, error) {
 	if err != nil {
 		return nil, err
 	}
+	// the line got a new label set: it is re-fingerprinted like a parsed line (ParserPlanner), so that lines
+	// the drop makes equal are one series for the aggregations grouping by fingerprint
+	cols, err = patchCol(cols, "fingerprint", func(sql.SQLObject) (sql.SQLObject, error) {
+		return sql.NewRawObject(`cityHash64(arraySort(arrayZip(mapKeys(labels),mapValues(labels))))`), nil
+	})
+	if err != nil {
+		return nil, err
+	}
 	main.Select(cols...)
 	return main, nil
 }
